@@ -87,7 +87,6 @@ class Run:
             if c.abstract_mul:
                 for ob in self.sink.obls[n0:]:
                     if ob.status is None and ob.backend == "smt" and ob.expect == "valid":
-                        ob.meta["abstract_mul"] = True
                         ob.meta["abstract_first"] = True
             if c.gen is not None:
                 for ob in self.sink.obls[n0:]:
@@ -134,28 +133,7 @@ class Run:
         obls = self.sink.obls
         if not obls:
             raise CheckerError("zero obligations generated")
-        backends.discharge(obls, self.budget)
-        # escalate unknowns once with 4x budget
-        # second attempt for unknowns: products abstracted to an uninterpreted function (sound weakening)
-        unk = [o for o in obls if o.status == "unknown" and o.kind not in ("cover", "canary") and o.backend == "smt"]
-        if unk:
-            for o in unk:
-                o.status = None
-                o.meta["abstract_mul"] = True
-            backends.discharge(unk, self.budget)
-            for o in unk:
-                if o.status != "discharged":
-                    o.meta.pop("abstract_mul", None)
-                    if o.status == "refuted":      # a model of the abstraction is not a counterexample
-                        o.status = "unknown"
-                        o.model = None
-                else:
-                    o.solver = (o.solver or "") + "+umul"
-        unk = [o for o in obls if o.status == "unknown" and o.kind not in ("cover", "canary")][:8]
-        if unk:
-            for o in unk:
-                o.status = None
-            backends.discharge(unk, self.budget * 4)
+        self.solve_all(obls)
         # known-finding witnesses: 'sat' means the listed defect is still present
         known_hits = []
         lines = []
@@ -234,6 +212,45 @@ class Run:
         if undecided:
             return 2
         return 0
+
+    def solve_all(self, obls):
+        """Staged discharge.  Weakened queries (fewer hypotheses, products as an uninterpreted function) are
+        sound for *proving*; a model of a weakened query is never taken as a refutation."""
+        from .core import _has_quantifier
+
+        def attempt(sel, budget, tag, **flags):
+            todo = [o for o in sel if o.status is None]
+            if not todo:
+                return
+            for o in todo:
+                o.meta.update(flags)
+            backends.discharge(todo, budget)
+            for o in todo:
+                for k in flags:
+                    o.meta.pop(k, None)
+                if o.status == "discharged":
+                    if tag:
+                        o.solver = (o.solver or "") + tag
+                elif flags:            # weakened: anything else means "try the next stage"
+                    o.status, o.model, o.detail = None, None, ""
+        smt = [o for o in obls if o.status is None and o.backend == "smt" and o.expect == "valid"]
+        qf_first = [o for o in smt if not _has_quantifier(o.goal) and any(_has_quantifier(h) for h in o.hyps)]
+        attempt(qf_first, 3.0, "+qf", drop_quantified=True)
+        attempt(qf_first, 3.0, "+qf+umul", drop_quantified=True, abstract_mul=True)
+        attempt([o for o in smt if o.meta.get("abstract_first")], 4.0, "+umul", abstract_mul=True)
+        backends.discharge(obls, self.budget)                       # exact, everything still open (all back ends)
+        unk = [o for o in obls if o.status == "unknown" and o.backend == "smt" and o.expect == "valid"]
+        for o in unk:
+            o.status = None
+        attempt(unk, self.budget, "+umul", abstract_mul=True)
+        for o in unk:
+            if o.status is None:
+                o.status = "unknown"
+        unk = [o for o in obls if o.status == "unknown" and o.kind not in ("cover", "canary")][:8]
+        for o in unk:
+            o.status = None
+        if unk:
+            backends.discharge(unk, self.budget * 4)
 
     def replay(self, o):
         if o.replay is None:
